@@ -62,8 +62,26 @@ def class_src(name, place, beh, members, inherit=False):
     return f"{deco_c}class {name}:\n{body}"
 
 
-def build(place, beh, inherit=False):
+USERCOLL_SRC = '''
+from func_adl import register_func_adl_os_collection
+from func_adl.type_based_replacement import ObjectStreamInternalMethods
+_TT = TypeVar("_TT")
+@register_func_adl_os_collection
+class MyColl(ObjectStreamInternalMethods[_TT]):
+    "a collection class of the user, registered next to the built-in one"
+    def Last(self) -> _TT: ...
+'''
+
+
+def build(place, beh, inherit=False, usercoll=False, redeclared=False):
     src = MODEL_SRC
+    if usercoll:
+        src += USERCOLL_SRC
+    if redeclared and place == "func":
+        # an earlier declaration under the same name, with another processor (a notebook cell run again after an edit)
+        src += "@func_adl_callable(_act('stale', 'fn', 'md+rename'))\ndef fn(x: float, k: int = 3) -> float: ...\n"
+    if redeclared and place == "func+method":
+        src += "@func_adl_callable(_act('stale', 'good', 'md+rename'))\ndef good(x: Ev, k: int = 3) -> Iterable[Jet]: ...\n"
     src += class_src("Trk", place, beh, [], inherit)
     src += class_src("Jet", place, beh, ["def trks(self) -> Iterable[Trk]: ...", "def pt(self) -> float: ..."], inherit)
     src += class_src("Ev", place, beh, ["def jets(self) -> Iterable[Jet]: ...", "def a(self) -> float: ..."], inherit)
@@ -98,6 +116,8 @@ SITES = [
     ("d2+d3", "e.jets().Select(lambda j: j.trks().Select(lambda t: {c1} + {c2}))", [("Trk", "t", 1), ("Jet", "j", 2)], ("Select",)),
     ("d2selmany", "e.jets().SelectMany(lambda j: j.trks()).Select(lambda t: {c1})", [("Trk", "t", 1)], ("Select", "SelectMany")),
     ("d2selmany-in", "e.jets().SelectMany(lambda j: j.trks().Where(lambda t: {c1} > 0))", [("Trk", "t", 1)], ("Select", "SelectMany")),
+    ("d2selmany-outer", "e.jets().SelectMany(lambda j: j.trks().Where(lambda t: t.other() > {c1}))", [("Ev", "e", 1)], ("Select", "SelectMany")),
+    ("d2selmany-outer2", "e.jets().SelectMany(lambda j: j.trks().Select(lambda t: {c1} + {c2}))", [("Trk", "t", 1), ("Jet", "j", 2)], ("Select",)),
     ("d1-and-d3", "{c1} + e.jets().Select(lambda j: j.trks().Select(lambda t: {c2}).First()).First()", [("Ev", "e", 1), ("Trk", "t", 2)], ("Select", "Where")),
     ("fnres", "good(e).Select(lambda j: {c1})", [("Jet", "j", 1)], ("Select", "SelectMany")),
     ("fnres-where", "good(e, 4).Where(lambda j: {c1} > 1).Count()", [("Jet", "j", 1)], ("Select",)),
@@ -113,7 +133,8 @@ class C09(Check):
             "rename the call, append an argument, replace an argument, MetaData + rename) x every call-site shape "
             "(depth 1..3 inside Select / Where of typed collections, one or two sites per lambda, sites at two depths, "
             "no site at all) x stream operator Select / Where / SelectMany, on a fresh and on an already derived "
-            "parent stream, with the methods defined on the decorated class or inherited from an undecorated base. Oracle: a reference walk of the user's lambda lists the call sites; every site must "
+            "parent stream, with the methods defined on the decorated class or inherited from an undecorated base, with a "
+            "second (user) collection class registered, with the function declared twice under one name. Oracle: a reference walk of the user's lambda lists the call sites; every site must "
             "produce a callback invocation, class-level before method-level, no invocation for anything that is not a "
             "site; every dictionary a callback attached must be on the args[0] chain below the new operator node and "
             "nothing else may be added there; the emitted call site must be what the callbacks returned. "
@@ -133,8 +154,10 @@ class C09(Check):
                         if (site[0].startswith("fnres")) != (place == "func+method"):
                             continue
                         for op in site[3]:
-                            for parent in ("root", "derived", "root+inherit"):
+                            for parent in ("root", "derived", "root+inherit", "root+usercoll"):
                                 out.append((place, beh, site[0], op, parent))
+                            if place in ("func", "func+method"):
+                                out.append((place, beh, site[0], op, "root+redeclared"))
                             if site[0] in ("d2sel", "d2where", "d3", "d2selmany"):
                                 out.append((place, beh, site[0], op, "root+samenames"))
             return out
@@ -146,7 +169,7 @@ class C09(Check):
 
         place, beh, sname, op, parent = payload
         bind.reset_type_registries()
-        g = build(place, beh, parent.endswith("+inherit"))
+        g = build(place, beh, parent.endswith("+inherit"), parent.endswith("+usercoll"), parent.endswith("+redeclared"))
         site = next(s for s in SITES if s[0] == sname)
         calls = [call_text(place, var, arg) for (_, var, arg) in site[2]]
         body = site[1].format(c1=calls[0] if calls else "", c2=calls[1] if len(calls) > 1 else "")
